@@ -3617,8 +3617,21 @@ impl SctpInner {
             // start and the SCTP handshake) stays queued until then instead of
             // leaving with tag 0 and a TSN the handshake will overwrite.
             let peer_known = self.remote_verification_tag.load(Ordering::SeqCst) != 0;
-            let available =
-                effective_window.saturating_sub(self.flight_size.load(Ordering::Relaxed));
+            // The peer's window is used up by everything it has not acknowledged, in
+            // flight or not: a T3 expiry takes chunks out of flight_size (they wait for
+            // their retransmission) but not out of the peer's buffer budget. Judging
+            // the window by flight_size alone admitted one more new chunk per T3 cycle,
+            // without bound, while nothing was being acknowledged.
+            let outstanding: usize = self
+                .sent_queue
+                .lock()
+                .values()
+                .filter(|r| !r.acked && !r.abandoned)
+                .map(|r| r.payload.len())
+                .sum();
+            let available = effective_window
+                .saturating_sub(self.flight_size.load(Ordering::Relaxed))
+                .min(rwnd_val.saturating_sub(outstanding));
             let mut budget = available;
             let mut batch: Vec<OutboundChunk> = Vec::new();
             let mut dequeued_bytes = 0usize;
